@@ -235,6 +235,10 @@ func gRunSeq(res *engine.Result, c gCase, ops []int, ci int, flt *gFault) (inter
 		}
 		must(w1.Exec("commit"))
 	}
+	// versions that a vacuum earlier in this history removed (legitimately: that vacuum was itself the final,
+	// fully checked vacuum of the shorter history). A stale writer's retire step may write such a version object
+	// again under root/merged/; it is not a retained version.
+	vacuumedEarlier := map[string]bool{}
 	model := map[int]*gModelRow{} // global (all committed statements), single monotone clock
 	reclaimed := map[int]bool{}   // keys whose delete marker an (earlier) vacuum has legitimately reclaimed
 	type rec struct {
@@ -279,10 +283,21 @@ func gRunSeq(res *engine.Result, c gCase, ops []int, ci int, flt *gFault) (inter
 				}
 			}
 		}
+		c0, m0 := engine.Versions(w.B.Snapshot(), lay)
 		verr, err := cl.Vacuum(cut)
 		if err != nil || verr != "" {
 			viol("c09", "vacuum-failed", "s3db_vacuum(%s) failed: %v %s", engine.TS(cut), err, verr)
 			return false
+		}
+		c1, m1 := engine.Versions(w.B.Snapshot(), lay)
+		still := map[string]bool{}
+		for _, n := range append(append([]string{}, c1...), m1...) {
+			still[n] = true
+		}
+		for _, n := range append(append([]string{}, c0...), m0...) {
+			if !still[n] {
+				vacuumedEarlier[n] = true
+			}
 		}
 		for k, m := range model {
 			if !m.live && m.delTime.Before(cut) && held[k] {
@@ -344,6 +359,28 @@ func gRunSeq(res *engine.Result, c gCase, ops []int, ci int, flt *gFault) (inter
 					return nil, false // a DELETE older than the row's INSERT has no effect (documented rule)
 				}
 				*m = gModelRow{live: false, delTime: stmtTime}
+			}
+			if len(vacuumedEarlier) > 0 {
+				objs := w.B.Snapshot()
+				heads, _ := engine.Versions(objs, lay)
+				for _, h := range heads {
+					vd, err := engine.WalkVersion(objs, lay, h)
+					if err != nil || len(vd.Missing) == 0 {
+						continue
+					}
+					onVacuumed := false
+					for _, par := range vd.Root.MergeSources {
+						onVacuumed = onVacuumed || vacuumedEarlier[par]
+					}
+					if onVacuumed {
+						// the writer was still based on a version that a vacuum (cutoff later than that writer's last
+						// refresh) removed; it had the nodes in memory / in its node cache and published without noticing
+						viol("c09", "stale-writer-publishes-version-on-vacuumed-base", "%s committed version %s on top of %v, which an earlier vacuum of this history had removed together with nodes %v that the new version still refers to; every later open fails", who, h, vd.Root.MergeSources, vd.Missing)
+					} else {
+						viol("c09", "commit-publishes-dangling-version", "%s committed version %s, which refers to objects that do not exist: %v", who, h, vd.Missing)
+					}
+					return nil, false
+				}
 			}
 			record(cl, created[who])
 		case action == "reconnect":
@@ -633,6 +670,9 @@ func gRunSeq(res *engine.Result, c gCase, ops []int, ci int, flt *gFault) (inter
 		if !(inCur[n] || !g.created.Before(cut)) {
 			continue
 		}
+		if vacuumedEarlier[n] && !inCur[n] {
+			continue // removed by an earlier vacuum; what is there now is a stale writer's retire copy
+		}
 		rows, err := openOnly(w, c.EPN, []string{n})
 		w.MakeCurrent()
 		if err != nil {
@@ -650,6 +690,9 @@ func gRunSeq(res *engine.Result, c gCase, ops []int, ci int, flt *gFault) (inter
 		vd, err := engine.WalkVersion(post, lay, n)
 		if err != nil {
 			viol("c09", "version-undecodable", "%v", err)
+			continue
+		}
+		if len(vd.Missing) > 0 && vacuumedEarlier[n] && !inCur[n] {
 			continue
 		}
 		if len(vd.Missing) > 0 {
